@@ -174,6 +174,49 @@ def r13_11(chk, facts):
         if A.callee_name(c) == 'insert_or_assign': chk.ok('R13.11', site, {'line': c.get('l')})
         else: chk.fail('R13.11', site, fn['file'], c.get('l'), 'merge() adds a member with %s (line %s): a member already taken from an earlier argument is kept, the later one is ignored' % (A.callee_name(c), c.get('l')), None, fn['q'])
 
+def r13_12(chk, facts):
+    """A value computed by a nested evaluation goes into a result only if that evaluation succeeded."""
+    chk.rule('R13.12', 'nested evaluation errors: where evaluate() of a function or expression stores the value of a nested `x.evaluate(..., e)` in '
+                       'the container it returns (emplace_back / push_back / insert_or_assign / try_emplace of the value or its address), the '
+                       'store is reached only after a test of the error_code `e` that the nested evaluation was given; a value stored '
+                       'without it turns an evaluation error into a null element of a successful result', floor=2)
+    n = 0
+    for fn in U.one_per_inst([f for f in facts.functions if f['n'] == 'evaluate' and f.get('body') is not None and not f.get('dep') and f['file'].endswith('jmespath.hpp')]):
+        binds = []
+        for d in A.walk_no_lambda(fn['body']):
+            if d.get('k') != 'VarDecl' or d.get('init') is None: continue
+            c = next((y for y in A.walk(d['init']) if y.get('k') == 'CXXMemberCallExpr' and A.callee_name(y) == 'evaluate' and (y.get('args') or [])), None)
+            if c is None: continue
+            e = A.strip(c['args'][-1], casts=True)
+            if e is None or e.get('k') != 'DeclRefExpr' or 'error_code' not in F.tname(fn, e.get('t')): continue
+            binds.append((d, c, e))
+        if not binds: continue
+        g = None
+        for d, c, e in binds:
+            stores = []
+            for y in A.walk_no_lambda(fn['body']):
+                if y.get('k') == 'CXXMemberCallExpr' and A.callee_name(y) in ('emplace_back', 'push_back', 'insert_or_assign', 'try_emplace', 'insert') and \
+                   any(z.get('k') == 'DeclRefExpr' and z.get('id') == d.get('id') for a in (y.get('args') or []) for z in A.walk(a)): stores.append(y)
+            if not stores: continue
+            if g is None: g = C.CFG(fn['body'])
+            chk.analysed(fn)
+            cn = g.node_of(c)
+            for st in stores:
+                n += 1
+                sn = g.node_of(st)
+                site = U.site(fn, 'store of %s@%d' % (d.get('n'), st.get('l', 0) - fn['l']))
+                ok = False
+                for a, lab, ed in (g.guards(sn) if sn is not None else []):
+                    t = A.strip(a, casts=True)
+                    refs = [z for z in A.walk(a) if z.get('k') == 'DeclRefExpr' and z.get('id') == e.get('id')]
+                    if refs and G.comparison(a) is None and lab is False and (cn is None or g.dominates(cn, ed)): ok = True
+                cls = A.strip_targs(fn.get('cls') or '').split('::')[-1]
+                if ok: chk.ok('R13.12', site, {'class': cls, 'line': st.get('l'), 'error_code': e.get('n')})
+                else:
+                    chk.fail('R13.12', site, fn['file'], st.get('l'), '%s::evaluate stores `%s`, the value of a nested evaluate(..., %s) (line %s), in its result without having tested %s: '
+                             'an element for which the expression cannot be evaluated becomes a null entry of a result that reports success' % (cls, d.get('n'), e.get('n'), c.get('l'), e.get('n')), None, fn['q'])
+    chk.require(n >= 2, 'R13.12: only %d stores of nested evaluation values found' % n)
+
 def run(chk, tier, only_rule=None):
     chk.explanation = EXPLANATION
     chk.not_decided = NOT_DECIDED
@@ -387,6 +430,7 @@ def run(chk, tier, only_rule=None):
     r13_9(chk, facts)
     r13_10(chk, facts)
     r13_11(chk, facts)
+    r13_12(chk, facts)
     # length(), reverse() and the comparison of strings go through the UTF-8 decoder
     from . import c02
     c02.r02_9(chk, F.load(['core'], tier), rid='R02.9')
